@@ -22,7 +22,9 @@ fn observe(fx: &NodeFx) -> Obs {
     let mut full = full_state_json(fx);
     // velocity counters are explored by the velocity harness (C12); leaving them out keeps
     // the node graph small (every invoice amount would otherwise multiply the states)
-    full["node"].as_object_mut().unwrap().remove("vc");
+    if !TRACK_VC.load(std::sync::atomic::Ordering::Relaxed) {
+        full["node"].as_object_mut().unwrap().remove("vc");
+    }
     if !TRACK_FEE.load(std::sync::atomic::Ordering::Relaxed) {
         full["node"].as_object_mut().unwrap().remove("fvc");
     }
@@ -55,6 +57,8 @@ fn restart_diff(fx: &NodeFx) -> (bool, Vec<String>, Option<NodeFx>, Value) {
 fn new_fx() -> NodeFx {
     if TRACK_FEE.load(std::sync::atomic::Ordering::Relaxed) {
         NodeFx::new(Network::Regtest, Some(feelimit_policy(Network::Regtest)))
+    } else if TRACK_VC.load(std::sync::atomic::Ordering::Relaxed) {
+        NodeFx::new(Network::Regtest, Some(maxinv_policy(Network::Regtest)))
     } else {
         NodeFx::new(Network::Regtest, None)
     }
@@ -89,6 +93,7 @@ fn explore() {
     let max_chans = arg_u64("max-chans", 2);
     // "feelimit": a fee velocity limit of FEE_LIMIT Withdraw fees per hour, counted fees are part of the state
     TRACK_FEE.store(arg_or("policy", "default") == "feelimit", std::sync::atomic::Ordering::Relaxed);
+    TRACK_VC.store(arg_or("policy", "default") == "maxinv", std::sync::atomic::Ordering::Relaxed);
     std::fs::create_dir_all(&out).unwrap();
     let shared = Arc::new((Mutex::new(Shared { queue: VecDeque::new(), seen: HashMap::new(), active: 0, states: 0 }), Condvar::new()));
     {
@@ -217,6 +222,7 @@ fn explore() {
 fn path() {
     let reqs: Vec<Value> = serde_json::from_str(&std::fs::read_to_string(arg("requests").unwrap()).unwrap()).unwrap();
     TRACK_FEE.store(arg_or("policy", "default") == "feelimit", std::sync::atomic::Ordering::Relaxed);
+    TRACK_VC.store(arg_or("policy", "default") == "maxinv", std::sync::atomic::Ordering::Relaxed);
     let mut fx = new_fx();
     for r in reqs {
         let before = observe(&fx);
